@@ -60,10 +60,12 @@ func NewTimer(ioc *IO) (*Timer, error) {
 // If the delay is negative or 0, the callback is executed as soon as possible.
 func (t *Timer) ScheduleOnce(delay time.Duration, cb func()) (err error) {
 	if t.state == stateReady {
-		t.cancelled = false
 		if delay <= 0 {
+			// Nothing gets armed here, so a Cancel made by the repeating callback that is running must stay
+			// visible to ScheduleRepeating (it would re-arm the cancelled timer otherwise).
 			cb()
 		} else {
+			t.cancelled = false
 			err = t.it.Set(delay, func() {
 				delete(t.ioc.pendingTimers, t)
 				t.state = stateReady
